@@ -110,7 +110,9 @@ def theorem_names(props_file: Path) -> list[str]:
         m = re.match(r"\s*end\s+(\S+)", line)
         if m and ns and ns[-1] == m.group(1):
             ns.pop(); continue
-        m = re.match(r"\s*(?:@\[[^\]]*\]\s*)?(?:private\s+|protected\s+)?theorem\s+(\S+)", line)
+        if re.match(r"\s*(?:@\[[^\]]*\]\s*)?private\s+theorem", line):
+            continue    # private helper lemmas cannot be named from the audit file; they are covered through their users
+        m = re.match(r"\s*(?:@\[[^\]]*\]\s*)?(?:protected\s+)?theorem\s+(\S+)", line)
         if m:
             names.append(".".join(ns + [m.group(1)]))
     return names
